@@ -10,7 +10,7 @@ T and U <: T, enum/interval below the class of its values.  Every failing instan
 with the types involved."""
 from ..common import *
 
-LEVEL = "model_checked"
+LEVEL = "model_checking"
 
 
 def shape(t, d=0):
